@@ -802,30 +802,34 @@ impl DnsListenerHandler {
             sock.local_addr().unwrap(), /* TODO: Error? */
         );
 
-        let mut lbytes = [0u8; 2];
+        /* A client may send several queries over one connection (RFC 7766): answer each, in
+         * order, until the client closes the connection.
+         */
+        loop {
+            let mut lbytes = [0u8; 2];
 
-        if sock.read_exact(&mut lbytes).await.map_err(Error::RecvError)? != lbytes.len() {
-            return Err(Error::ParseError("Failed to read length".into()));
-        }
+            match sock.read_exact(&mut lbytes).await {
+                Ok(_) => (),
+                /* The client is done with this connection. */
+                Err(err) if err.kind() == std::io::ErrorKind::UnexpectedEof => return Ok(()),
+                Err(err) => return Err(Error::RecvError(err)),
+            }
 
-        let l = u16::from_be_bytes(lbytes) as usize;
-        let mut buffer = vec![0u8; l];
+            let l = u16::from_be_bytes(lbytes) as usize;
+            let mut buffer = vec![0u8; l];
 
-        sock.read_exact(&mut buffer[..])
-            .await
-            .map_err(Error::RecvError)?;
-        let timer = IN_QUERY_LATENCY.with_label_values(&["TCP"]).start_timer();
+            sock.read_exact(&mut buffer[..])
+                .await
+                .map_err(Error::RecvError)?;
+            let timer = IN_QUERY_LATENCY.with_label_values(&["TCP"]).start_timer();
 
-        let q = s.clone();
+            log::trace!(
+                "Received TCP {:?} ⇒ {:?} ({})",
+                sock_addr,
+                sock.local_addr(),
+                buffer.len()
+            );
 
-        log::trace!(
-            "Received TCP {:?} ⇒ {:?} ({})",
-            sock_addr,
-            sock.local_addr(),
-            buffer.len()
-        );
-
-        tokio::spawn(async move {
             use tokio::io::AsyncWriteExt as _;
             match Self::build_dns_message(
                 &buffer,
@@ -834,7 +838,7 @@ impl DnsListenerHandler {
                 Protocol::Tcp,
             ) {
                 Ok(msg) => {
-                    let in_reply = Self::recv_in_query(&q, &msg).await.unwrap();
+                    let in_reply = Self::recv_in_query(s, &msg).await.unwrap();
                     let serialised = Self::prepare_to_send(
                         &in_reply,
                         response_size_limit(&msg.protocol, msg.in_query.bufsize),
@@ -847,6 +851,7 @@ impl DnsListenerHandler {
                         IN_QUERY_RESULT
                             .with_label_values(&["TCP", "send fail"])
                             .inc();
+                        return Ok(());
                     }
                     drop(timer);
                 }
@@ -855,11 +860,11 @@ impl DnsListenerHandler {
                         .with_label_values(&["TCP", "parse fail"])
                         .inc();
                     log::warn!("Failed to handle request: {}", err);
+                    /* We cannot answer what we cannot parse: close the connection. */
+                    return Ok(());
                 }
             }
-        });
-
-        Ok(())
+        }
     }
 
     async fn run_tcp_listener(
